@@ -33,6 +33,34 @@ def gen_history(rng, n, watch=False):
             idxs_now = idxs + [H, H + 1]
         else:
             idxs_now = idxs
+        if rng.random() < 0.12:
+            # interaction templates: DIFFERENT kinds of request on the SAME node with overlapping index ranges, in an
+            # order that is neither ascending nor consecutive (single step / bulk / path / address generator)
+            h = rng.randrange(nh)
+            i = rng.choice([0, 1, 5])
+            tpl = rng.randrange(6)
+            if tpl == 0:
+                seq = ["ckd:%d:%d" % (h, i), "ckd:%d:%d" % (h, i + rng.choice([2, 5])), "gc:%d:%d:%d" % (h, i, i + 3)]
+                nh += 2 + 3
+            elif tpl == 1:
+                seq = ["gc:%d:%d:%d" % (h, i, i + 3), "ckd:%d:%d" % (h, i + 1), "gc:%d:%d:%d" % (h, i, i + 2)]
+                nh += 3 + 1 + 2
+            elif tpl == 2:
+                kind = rng.choice(KINDS)
+                seq = ["ng:%d:%s" % (h, kind), "nx:%d" % ng, "sd:%d:%d" % (ng, rng.choice([2, 5])), "gc:%d:0:3" % h]
+                ng += 1
+                nh += 3
+            elif tpl == 3:
+                seq = ["dp:%d:%s" % (h, impl.lst(str, [i + 2, 1])), "gc:%d:%d:%d" % (h, i, i + 3), "dp:%d:%s" % (h, impl.lst(str, [i + 1]))]
+                nh += 1 + 3 + 1
+            elif tpl == 4:
+                seq = ["gc:%d:5:8" % h, "gc:%d:0:3" % h, "gc:%d:0:8" % h]
+                nh += 3 + 3 + 8
+            else:
+                seq = ["ckd:%d:%d" % (h, i + 1), "ckd:%d:%d" % (h, i), "ckd:%d:%d" % (h, i + 1), "gc:%d:%d:%d" % (h, i, i + 2)]
+                nh += 3 + 2
+            ops += seq
+            continue
         if r < 0.12:
             comps = [rng.choice(["0", "1", "2", "7"] + (["1'", "0h"] if hard else []) + ([] if watch else ["44'", "0'", "1h", "84'"]))
                      for _ in range(rng.randint(0, 5))]
